@@ -201,10 +201,35 @@ def framePlan (nec : Nat) : P FramePlan := do
     match st with
     | "tocperm" :: _ => do let _ ← tok; let k ← nat; pure (some k)
     | _ => pure none)
+  -- optional: `patches NP { REF X0 Y0 W H NT { X Y {MODE ALPHA CLAMP}*(1+nec) }*NT }*NP`
+  let patches ← (do
+    let st ← get
+    match st with
+    | "patches" :: _ => do
+      let _ ← tok
+      let np ← nat
+      rep np (do
+        let ref ← nat
+        let x0 ← nat
+        let y0 ← nat
+        let w ← nat
+        let h ← nat
+        let nt ← nat
+        let targets ← rep nt (do
+          let x ← int
+          let y ← int
+          let blend ← rep (1 + nec) (do
+            let m ← nat
+            let a ← nat
+            let c ← bool
+            pure (m, a, c))
+          pure ({ x, y, blend } : PatchTgt))
+        pure ({ ref, x0, y0, w, h, targets } : PatchSpec))
+    | _ => pure [])
   kw "chans"
   let nc ← nat
   let chans ← rep nc chan
-  pure { hdr := { ty, upsampling := ups, ecUpsampling := ecups, groupShift := gshift, haveCrop, x0, y0, w, h,
+  pure { hdr := { patches, ty, upsampling := ups, ecUpsampling := ecups, groupShift := gshift, haveCrop, x0, y0, w, h,
                   blend := b, ecBlend := ecb, duration := dur, isLast, saveAsRef := saveRef, saveBeforeCt := sbct, gab, epfIters := epf },
          chans, transforms := ts, pals, tree := t, wp, coded, ent, tocSeed }
 
